@@ -353,6 +353,7 @@ class Facts:
                 elif 'impl' in d: self.impls.append(d)
                 elif 'const' in d: self.consts[d['const']] = (d['ty'], d['val'])
                 elif 'header' in d: self.header = d
+        for b in self.bodies.values(): b.facts = self
         self._by_hdr = collections.defaultdict(list)
         for b in self.bodies.values():
             if b.kind == 'fn':
